@@ -265,6 +265,7 @@ func e2eRun(o e2eOpts, w *e2eWire, h *e2eHooks) *e2eResult {
 
 	timer := time.NewTimer(wd)
 	defer timer.Stop()
+	lastAct := int64(-1)
 	var serr error
 	gotS, gotC := false, false
 	for !(gotS && gotC) {
@@ -274,6 +275,13 @@ func e2eRun(o e2eOpts, w *e2eWire, h *e2eHooks) *e2eResult {
 		case <-clientDone:
 			gotC = true
 		case <-timer.C:
+			// the watchdog fires after wd without any write on the wire (at most 20 x wd in all):
+			// a long transfer on a loaded machine is slow, not hung
+			if a := w.act.Load(); a != lastAct && time.Since(t0) < 20*wd {
+				lastAct = a
+				timer.Reset(wd)
+				continue
+			}
 			if !gotS {
 				res.Hung = append(res.Hung, "server")
 			}
